@@ -3,6 +3,7 @@ import SpoxModel.Model.Front
 import SpoxModel.Generated.RenamesIR
 import SpoxModel.Model.FrontIR
 import SpoxModel.Generated.BuildFrontIR
+import SpoxModel.Model.FrontSpec
 /-! Line-protocol handler for C03 (also used by C12): run `spox.build`'s front-end model on an
     abstract program and a request; report graph inputs/outputs, the error class and the names of
     all Vars afterwards. The IR of `_temporary_renames` is the one generated from /repo, and so is the
@@ -53,8 +54,37 @@ def errName : Err → String
 
 def vinfos (l : List VInfo) : Json := toJson (l.map (fun i => [i.name, i.ty]))
 
+def resJson (r : Except Err Model) : Json :=
+  match r with
+  | .ok m => Json.mkObj [("inputs", vinfos m.inputs), ("outputs", vinfos m.outputs),
+                          ("outVars", toJson m.outVars)]
+  | .error e => Json.mkObj [("err", errName e)]
+
+def namesJson (n : Nat) (s : Renames.Store) : Json :=
+  Json.arr ((List.range n).map (fun v => match s v with
+    | some x => Json.str x | none => Json.null)).toArray
+
+def parseStep (j : Json) : Except String (Nat × Request) := do
+  let ins ← (← j.getObjValAs? (List Json) "inputs").mapM parseEntry
+  let outs ← (← j.getObjValAs? (List Json) "outputs").mapM parseEntry
+  return ((j.getObjValAs? Nat "pi").toOption.getD 0, ⟨ins, outs, (← j.getObjValAs? Bool "drop")⟩)
+
+/-- `"hist": [step, …]`: the requests run one after the other over one name store with `Front.runHist`
+    (the object `C12.history_independent` is about), every step = the statement list extracted from
+    `_public.py`; returns every result and the names at the end. -/
+def handleHist (req : Json) (stepsJ : List Json) : Except String Json := do
+  let objs ← (← req.getObjValAs? (List Json) "objs").mapM parseObj
+  let P := objs.reverse
+  let steps ← stepsJ.mapM parseStep
+  let store := storeOf (← parseStore req)
+  let (s1, rs) := runHist (fun (st : Nat × Request) s =>
+    FrontIR.run Generated.BuildFrontIR.ir Generated.RenamesIR.ir P (perm st.1) st.2 s) steps store
+  return Json.mkObj [("results", Json.arr (rs.map resJson).toArray), ("names", namesJson objs.length s1)]
+
 def handle (req : Json) : Json :=
   match (do
+    if let .ok stepsJ := req.getObjValAs? (List Json) "hist" then
+      return (← handleHist req stepsJ)
     let objsJ ← req.getObjValAs? (List Json) "objs"
     let objs ← objsJ.mapM parseObj
     let P := objs.reverse
@@ -81,7 +111,11 @@ def handle (req : Json) : Json :=
        | none => true
        | some n => !(ins.any (fun e => e.name == n)) && !(outs.any (fun e => e.name == n))))
     return Json.mkObj [("res", res), ("names", Json.arr names.toArray), ("noclash", Json.bool noclash),
-                       ("free", toJson (freeArgs P outs)), ("wf", Json.bool (wfb P))]) with
+                       ("free", toJson (freeArgs P outs)), ("wf", Json.bool (wfb P)),
+                       -- `Front.specBuild` / `Front.wfReq`: the abstract result `C03.build_statements_refine_spec`
+                       -- equates with `res` whenever `wfreq` and `noclash` hold
+                       ("spec", resJson (specBuild P ⟨ins, outs, drop⟩)),
+                       ("wfreq", Json.bool (wfReq P ⟨ins, outs, drop⟩))]) with
   | .ok j => j
   | .error e => Json.mkObj [("error", e)]
 
